@@ -74,6 +74,17 @@ type pgen struct {
 	forceFlag *Ref
 	chain     bool
 	isTop  bool
+	// inProducer: generating the bindings of an inserted producer call.
+	inProducer bool
+	// forceMerged: the next call binds one parameter to this output of a
+	// map call (merged over its forks) and is, more often than not, a map
+	// call itself (over another parameter).
+	forceMerged *source
+	// reserved: index of a parameter genMapSources must leave alone (-1: none).
+	reserved int
+	// palette: element types most stage parameters are built from.
+	palette   []Ty
+	noPalette bool
 	hasMap map[string]bool // pipelines containing a map call (transitively)
 	t    *rapid.T
 	cfg  *ProgCfg
@@ -224,7 +235,7 @@ func (g *pgen) structToMap(dst, src Ty, depth int) bool {
 // GenProgram draws a well-typed program with a top-level call.
 func GenProgram(t *rapid.T, cfg *ProgCfg) *Program {
 	u := GenUniverse(t, UniverseCfg{MaxStructs: 3, MaxWider: 2, MaxFields: 3, NoFiles: cfg.NoFiles})
-	g := &pgen{t: t, cfg: cfg, u: u, prog: &Program{U: u}}
+	g := &pgen{t: t, cfg: cfg, u: u, prog: &Program{U: u}, reserved: -1}
 	ns := rapid.IntRange(1, max(1, cfg.MaxStages)).Draw(t, "nStages")
 	for i := 0; i < ns; i++ {
 		g.prog.Stages = append(g.prog.Stages, g.genStage(i))
@@ -259,7 +270,47 @@ func GenProgram(t *rapid.T, cfg *ProgCfg) *Program {
 	return g.prog
 }
 
+// paletteType: most stage parameters draw their element type from a small
+// per-program palette, so that outputs of one call fit inputs of another
+// (as the element, as a collection to map over, or as the merged output of
+// a map call) far more often than independent draws would allow.
+func (g *pgen) paletteType(label string) (Ty, bool) {
+	if g.noPalette {
+		return Ty{}, false
+	}
+	if g.palette == nil {
+		n := rapid.IntRange(2, 3).Draw(g.t, "paletteSize")
+		for i := 0; i < n; i++ {
+			save := g.noPalette
+			g.noPalette = true
+			e := g.genStageType("palette")
+			g.noPalette = save
+			e.Arr, e.Map = 0, 0
+			if e.Base == "bool" || e.Base == "map" {
+				e.Base = "int"
+			}
+			g.palette = append(g.palette, e)
+		}
+	}
+	if rapid.IntRange(0, 2).Draw(g.t, label+"Palette") == 0 {
+		return Ty{}, false
+	}
+	e := g.palette[rapid.IntRange(0, len(g.palette)-1).Draw(g.t, label+"PaletteElem")]
+	switch rapid.IntRange(0, 9).Draw(g.t, label+"PaletteShape") {
+	case 0, 1, 2, 3:
+		return e, true
+	case 4, 5, 6, 7:
+		return e.ArrayOf(), true
+	case 8:
+		return e.MapOf(), true
+	}
+	return e.ArrayOf().ArrayOf(), true
+}
+
 func (g *pgen) genStageType(label string) Ty {
+	if ty, ok := g.paletteType(label); ok {
+		return ty
+	}
 	if g.cfg.VDR && rapid.IntRange(0, 2).Draw(g.t, label+"FileIsh") == 0 {
 		bases := append([]string{"file", "path", "string"}, g.u.FileTypes...)
 		for _, st := range g.u.Structs {
@@ -315,7 +366,23 @@ func (g *pgen) genStage(i int) *Stage {
 	nout := rapid.IntRange(1, 3).Draw(t, "nOuts")
 	for j := 0; j < nout; j++ {
 		ty := g.genStageType("out")
-		if j == nout-1 && rapid.IntRange(0, 3).Draw(t, "boolOut") == 0 {
+		if j == 0 && g.cfg.MapCalls && len(g.prog.Stages) > 0 && rapid.IntRange(0, 3).Draw(t, "feedsMapCall") != 0 {
+			// a collection whose elements fit an input of an earlier stage
+			// (or of this one): something a map call can split over at run
+			// time (forks created while the pipestance runs)
+			cands := append([]*Stage{}, g.prog.Stages...)
+			cands = append(cands, s)
+			src := cands[rapid.IntRange(0, len(cands)-1).Draw(t, "feedsStage")]
+			in := src.Ins[rapid.IntRange(0, len(src.Ins)-1).Draw(t, "feedsParam")]
+			if in.T.Map == 0 && in.T.Base != "map" && rapid.IntRange(0, 2).Draw(t, "feedsAsMap") == 0 {
+				ty = in.T.MapOf()
+			} else {
+				ty = in.T.ArrayOf()
+			}
+		}
+		if j == nout-1 && nout > 1 && rapid.IntRange(0, 3).Draw(t, "boolOut") == 0 {
+			ty = Ty{Base: "bool"}
+		} else if j == nout-1 && nout == 1 && ty.Arr == 0 && ty.Map == 0 && rapid.IntRange(0, 3).Draw(t, "boolOut") == 0 {
 			ty = Ty{Base: "bool"}
 		}
 		s.Outs = append(s.Outs, Param{Name: outNames[j], T: ty})
@@ -552,6 +619,18 @@ func (g *pgen) genExprFor(dst Ty, depth int) Expr {
 	cands := g.candidates(dst, nil)
 	roll := rapid.IntRange(0, 9).Draw(t, "bindKind")
 	if len(cands) > 0 && roll < 6 {
+		// outputs of map calls (merged over their forks) first, half of the
+		// time: consumers of merged values are what independent draws
+		// rarely produce
+		var merged []source
+		for _, s := range cands {
+			if s.fromMapped {
+				merged = append(merged, s)
+			}
+		}
+		if len(merged) > 0 && rapid.Bool().Draw(t, "preferMerged") {
+			cands = merged
+		}
 		return cands[rapid.IntRange(0, len(cands)-1).Draw(t, "cand")].ref
 	}
 	if roll < 7 && len(g.pl.Ins) < 8 {
@@ -623,6 +702,11 @@ func (g *pgen) genPipeline(idx int, isTop bool) {
 		g.newInput(g.genStageType("plIn"), false)
 	}
 	ncalls := rapid.IntRange(1, max(1, g.cfg.MaxCalls)).Draw(t, "nCalls")
+	if isTop && g.cfg.MapOnlyInTop && g.cfg.MapCalls {
+		// all the mapping happens here: room for producer, map call,
+		// consumer of the merged output
+		ncalls += rapid.IntRange(0, 2).Draw(t, "moreTopCalls")
+	}
 	names := g.callables()
 	used := map[string]int{}
 	if pf := g.prog.Stage("PF0"); pf != nil && rapid.IntRange(0, 2).Draw(t, "callPreflight") == 0 {
@@ -684,6 +768,30 @@ func (g *pgen) genPipeline(idx int, isTop bool) {
 				callee = g.prog.Stages[0].Name
 			}
 		}
+		if !g.chain && rapid.IntRange(0, 2).Draw(t, "consumeMerged") == 0 {
+			// a stage that can take the merged output of an earlier map
+			// call of this pipeline
+		findConsumer:
+			for i := len(g.sources) - 1; i >= 0; i-- {
+				src := g.sources[i]
+				if !src.fromMapped || src.ref.Out == "" {
+					continue
+				}
+				for _, st := range g.prog.Stages {
+					if st.Name == "PF0" {
+						continue
+					}
+					for _, in := range st.Ins {
+						if g.assignable(in.T, src.t) {
+							callee = st.Name
+							fm := src
+							g.forceMerged = &fm
+							break findConsumer
+						}
+					}
+				}
+			}
+		}
 		c := &Call{Id: callee, Callee: callee}
 		if used[callee] > 0 || rapid.IntRange(0, 5).Draw(t, "alias") == 0 {
 			c.Id = fmt.Sprintf("%s_%c", callee, 'A'+rune(ci))
@@ -693,6 +801,14 @@ func (g *pgen) genPipeline(idx int, isTop bool) {
 		if g.cfg.VDR && g.prog.Stage(callee) != nil {
 			// (only stage calls may carry the volatile tag)
 			c.Volatile = rapid.IntRange(0, 2).Draw(t, "volatileCall") != 0
+		}
+		if g.cfg.Decorate && g.prog.Stage(callee) != nil {
+			// several modifiers on one call (local, volatile; a preflight
+			// call cannot be volatile)
+			c.Local = rapid.IntRange(0, 2).Draw(t, "localCall") == 0
+			if !c.Preflight {
+				c.Volatile = rapid.IntRange(0, 2).Draw(t, "volatileCallDeco") == 0
+			}
 		}
 		pl.Calls = append(pl.Calls, c)
 	}
@@ -849,8 +965,30 @@ func (g *pgen) genCallBindings(c *Call) {
 			mayMap = false
 		}
 	}
+	mergedIdx := -1
+	if fm := g.forceMerged; fm != nil {
+		g.forceMerged = nil
+		for i, in := range ins {
+			if !in.Flag && g.assignable(in.T, fm.t) {
+				mergedIdx = i
+				break
+			}
+		}
+		if mergedIdx >= 0 {
+			c.Bindings = append(c.Bindings, Binding{Param: ins[mergedIdx].Name, E: fm.ref})
+			g.reserved = mergedIdx
+			if mayMap && len(ins) >= 2 && rapid.IntRange(0, 2).Draw(t, "mapConsumer") != 0 {
+				mapShape, mapKind, splitIdx = g.genMapSources(c, ins)
+				mayMap = false
+			}
+		}
+	}
 	if mayMap && rapid.IntRange(0, 2).Draw(t, "mapCall") == 0 {
 		mapShape, mapKind, splitIdx = g.genMapSources(c, ins)
+	}
+	g.reserved = -1
+	if mergedIdx >= 0 {
+		splitIdx[mergedIdx] = true // bound above
 	}
 	if g.hasMap == nil {
 		g.hasMap = map[string]bool{}
@@ -999,6 +1137,37 @@ func exprUsesCall(e Expr) bool {
 	return false
 }
 
+// insertProducer adds a plain (not mapped, not disabled) call of a stage with
+// an output of exactly type ty to the current pipeline and returns that
+// output as a source.
+func (g *pgen) insertProducer(ty Ty) (source, bool) {
+	for _, st := range g.prog.Stages {
+		if st.Name == "PF0" {
+			continue
+		}
+		for _, o := range st.Outs {
+			if o.T != ty {
+				continue
+			}
+			pc := &Call{Id: fmt.Sprintf("%s_P%d", st.Name, len(g.pl.Calls)), Callee: st.Name}
+			g.inProducer = true
+			saveCfg := *g.cfg
+			g.cfg.MapCalls, g.cfg.Disabled = false, false
+			g.genCallBindings(pc)
+			*g.cfg = saveCfg
+			g.inProducer = false
+			g.pl.Calls = append(g.pl.Calls, pc)
+			for _, s := range g.sources {
+				if s.call == pc.Id && s.ref.Out == o.Name && len(s.ref.Path) == 0 {
+					return s, true
+				}
+			}
+			return source{}, false
+		}
+	}
+	return source{}, false
+}
+
 // genMapSources picks the parameters the call is mapped over and binds them
 // to split sources that are consistent by construction (same shape).
 func (g *pgen) genMapSources(c *Call, ins []Param) (shape, kind string, idx map[int]bool) {
@@ -1029,8 +1198,11 @@ func (g *pgen) genMapSources(c *Call, ins []Param) (shape, kind string, idx map[
 			}
 		}
 	}
+	if first == g.reserved && g.reserved >= 0 {
+		first = (first + 1) % len(ins)
+	}
 	in := ins[first]
-	if in.Flag {
+	if in.Flag || (first == g.reserved && g.reserved >= 0) {
 		return "", "", idx
 	}
 	wantMap := in.T.Map == 0 && in.T.Base != "map" && rapid.IntRange(0, 2).Draw(t, "overMap") == 0
@@ -1080,6 +1252,21 @@ func (g *pgen) genMapSources(c *Call, ins []Param) (shape, kind string, idx map[
 		}
 	}
 	roll := rapid.IntRange(0, 9).Draw(t, "splitSrcKind")
+	// no collection produced at run time in scope: call a stage that
+	// produces one first (so that forks get created while the pipestance
+	// runs - the static case needs no help to be frequent)
+	hasDyn := false
+	for _, s := range cs {
+		if s.call != "" {
+			hasDyn = true
+		}
+	}
+	if !hasDyn && !g.inProducer && rapid.IntRange(0, 3).Draw(t, "makeProducer") != 0 {
+		if s, ok := g.insertProducer(collT); ok && okSplit(s) {
+			cs = append(cs, s)
+			roll = 0
+		}
+	}
 	var e Expr
 	switch {
 	case len(cs) > 0 && roll < 6:
@@ -1124,7 +1311,7 @@ func (g *pgen) genMapSources(c *Call, ins []Param) (shape, kind string, idx map[
 	g.markSplitSrc(e)
 	// further split parameters with the same shape
 	for j, other := range ins {
-		if j == first || other.Flag || rapid.IntRange(0, 2).Draw(t, "moreSplit") != 0 {
+		if j == first || (j == g.reserved && g.reserved >= 0) || other.Flag || rapid.IntRange(0, 2).Draw(t, "moreSplit") != 0 {
 			continue
 		}
 		var ct Ty
